@@ -24,7 +24,7 @@
    typeable sequence of the four constructs around each limit. *)
 From Coq Require Import List ZArith NArith Bool Lia String.
 From WF Require Import Base.Bytes Lang.Types Lang.Ast Spec.Typing Spec.C13 Parse.Lex Parse.Parser
-     Proofs.ParserProofs Proofs.ParserClosed Proofs.LimitProofs Sem.Funs.
+     Proofs.ParserProofs Proofs.ParserClosed Proofs.LimitProofs Sem.Funs Spec.Grammar Proofs.GrammarProofs.
 Import ListNotations.
 
 Definition unlimited (st : settings) : settings :=
@@ -66,6 +66,23 @@ Proof.
   - intros H. pose proof (C13_accepted_value_within_limit _ _ _ _ _ H) as D. split; [|exact D].
     apply (parse_value_limit_exact sch st (unlimited st)); auto. cbn [unlimited st_max_depth]. lia.
   - intros [H D]. apply (parse_value_limit_exact sch (unlimited st) st); auto.
+Qed.
+
+(* With the surface grammar (Spec/Grammar.v) as the notion of "a well-typed filter written as text": such a
+   filter is accepted under the limit d exactly when its nesting is at most d - with its own AST - and is
+   otherwise rejected (no AST at all). *)
+Theorem C13_grammar_filter_exact : forall sch st text e,
+  fn_names_ok sch -> (st_max_depth st <= 65535)%N -> GFilter sch (unlimited st) text e ->
+  (parse_filter sch st text = LOk e [] <-> (depth_lexpr e <= N.to_nat (st_max_depth st))%nat) /\
+  ((exists e', parse_filter sch st text = LOk e' []) <-> (depth_lexpr e <= N.to_nat (st_max_depth st))%nat).
+Proof.
+  intros sch st text e Hn Hu HG. pose proof (filter_grammar_parses _ _ _ _ HG) as Hp.
+  pose proof (C13_limit_is_exact sch st text e Hn Hu) as X. split.
+  - split; [intros H; exact (proj2 (proj1 X H))|intros D; apply X; split; assumption].
+  - split.
+    + intros (e' & H'). destruct (proj1 (C13_limit_is_exact sch st text e' Hn Hu) H') as [U D].
+      rewrite Hp in U. injection U as <-. exact D.
+    + intros D. exists e. apply X. split; assumption.
 Qed.
 
 (* the names of the harness function library (and of the built-in concat) satisfy the condition *)
